@@ -352,15 +352,34 @@ func (r *runner) account(res jobResult) {
 			c.Note("stopped early after %d failing schedules", r.failures)
 		}
 	}
-	cs := r.caseOf(res.job)
-	threads := map[string]bool{}
-	for _, a := range strings.Split(cs.Acts, ",") {
-		if len(a) > 1 {
-			threads[strings.SplitN(a[1:], ".", 2)[0]] = true
+	// which threads take steps (thread ids are single digits), and a 64-bit key of (cap, programs, schedule)
+	var mask uint
+	sc := res.sched
+	h := uint64(14695981039346656037)
+	inAct := true // between a ',' and the following '='
+	for i := 0; i < len(sc); i++ {
+		ch := sc[i]
+		h = (h ^ uint64(ch)) * 1099511628211
+		switch {
+		case ch == ',':
+			inAct = true
+		case ch == '=':
+			inAct = false
+		case inAct && i > 0 && ch >= '0' && ch <= '9' && sc[i-1] != 'p':
+			mask |= 1 << (ch - '0')
 		}
 	}
-	nontrivial := len(threads) >= 2 && strings.Contains(cs.Progs, "s")
-	c.Eval(fmt.Sprintf("%d/%s/%s", cs.Cap, cs.Progs, cs.Acts), nontrivial)
+	progs := res.cfg.progs()
+	for i := 0; i < len(progs); i++ {
+		h = (h ^ uint64(progs[i])) * 1099511628211
+	}
+	h = (h ^ uint64(res.cfg.Cap)) * 1099511628211
+	nontrivial := mask&(mask-1) != 0 && strings.Contains(progs, "s")
+	var kb [8]byte
+	for i := range kb {
+		kb[i] = byte(h >> (8 * i))
+	}
+	c.Eval(string(kb[:]), nontrivial)
 	c.Hit("mode:" + res.mode)
 	c.HitN("steps-forced", res.steps)
 	if res.blocked > 0 {
@@ -374,7 +393,14 @@ func (r *runner) account(res jobResult) {
 			c.Hit("sched-has:" + name)
 		}
 	}
-	c.SampleSome(cs, 997)
+	if len(c.Res.Samples) < 8 && c.Res.Evaluations%997 == 0 {
+		c.Sample(r.caseOf(res.job))
+	}
+	if res.status == "ok" {
+		c.Res.Traces++
+		return
+	}
+	cs := r.caseOf(res.job)
 	switch {
 	case res.crashed:
 		r.found = append(r.found, finding{true, "crash:" + crashKind(res.stderr+res.detail), fmt.Sprintf("the child process died while this schedule was forced on the real Channel: %s | %s", res.detail, firstLines(res.stderr, 6)), cs, len(cs.Acts)})
@@ -524,10 +550,10 @@ func Run(c *vh.Ctx) {
 		r.corpus()
 		cfgs := allConfigs()
 		c.Note("configuration space: %d configurations (≤3 producers × ≤3 consumers × ≤1 closer/mixed thread, ≤3 ops each, capacity 0..4), processed in order of weight (atomic steps)", len(cfgs))
-		budgetAll := c.N(400_000, 8_000_000)   // schedules forced in the all-maximal-schedules phase
-		budgetEdges := c.N(250_000, 4_000_000)  // paths forced in the every-transition phase
-		perCfgAll := c.N(6_000, 100_000)
-		perCfgEdges := c.N(6_000, 100_000)
+		budgetAll := c.N(400_000, 3_000_000)   // schedules forced in the all-maximal-schedules phase
+		budgetEdges := c.N(250_000, 2_000_000) // paths forced in the every-transition phase
+		perCfgAll := c.N(6_000, 60_000)
+		perCfgEdges := c.N(6_000, 60_000)
 		usedAll, usedEdges := 0, 0
 		maxAllW, maxEdgesW := 0, 0
 		nAll, nEdges, nSkipped := 0, 0, 0
@@ -586,7 +612,7 @@ func Run(c *vh.Ctx) {
 			r.probes(cfg, perCfgEdges)
 		}
 		// seeded random maximal schedules over the whole space, biased to the large configurations
-		nWalkCfg := c.N(300, 5000)
+		nWalkCfg := c.N(300, 3000)
 		walks := c.N(150, 300)
 		walkDone := 0
 		for i := 0; i < nWalkCfg && allOK && !r.stopped(); i++ {
